@@ -36,7 +36,7 @@ func c11recA(buf, lhs, rhs, alias []int) Ev {
 		lhs, rhs = buf[alias[0]:alias[1]], buf[alias[2]:alias[3]]
 	}
 	ev := Ev{"op": "new", "lhs": ints(slices.Clone(lhs)), "rhs": ints(slices.Clone(rhs)), "script": []any{}, "lhs2": []int{}, "rhs2": []int{},
-		"buf": ints(buf), "alias": ints(alias)}
+		"buf": ints(buf), "alias": ints(alias), "z": 0}
 	guard(ev, func() {
 		l2, r2 := views(buf, lhs, rhs, alias)
 		es := slice.EditScript(l2, r2)
@@ -50,8 +50,55 @@ func c11recA(buf, lhs, rhs, alias []int) Ev {
 	return ev
 }
 
+// c11recZ: the same call over float64 elements, where code 1000 stands for -0 and
+// 0 for +0: equal under == but different values, so "X is the very span of lhs"
+// is observable in the contents (an Emit must carry lhs's zero, not rhs's).
+const negZero = 1000
+
+func c11recZ(lhs, rhs []int) Ev {
+	ev := Ev{"op": "new", "lhs": ints(slices.Clone(lhs)), "rhs": ints(slices.Clone(rhs)), "script": []any{}, "lhs2": []int{}, "rhs2": []int{},
+		"buf": []int{}, "alias": []int{}, "z": 1}
+	toF := func(q []int) []float64 {
+		out := make([]float64, len(q))
+		for i, x := range q {
+			if x == negZero {
+				out[i] = math.Copysign(0, -1)
+			} else {
+				out[i] = float64(x)
+			}
+		}
+		return out
+	}
+	toI := func(q []float64) []int {
+		out := make([]int, len(q))
+		for i, x := range q {
+			if x == 0 && math.Signbit(x) {
+				out[i] = negZero
+			} else {
+				out[i] = int(x)
+			}
+		}
+		return out
+	}
+	guard(ev, func() {
+		l2, r2 := toF(lhs), toF(rhs)
+		es := slice.EditScript(l2, r2)
+		script := make([]any, 0, len(es))
+		for _, e := range es {
+			script = append(script, []any{string(rune(e.Op)), ints(toI(e.X)), ints(toI(e.Y))})
+		}
+		ev["script"] = script
+		ev["lhs2"], ev["rhs2"] = ints(toI(l2)), ints(toI(r2))
+	})
+	return ev
+}
+
 func replayC11(c *Ctx, h *Hist, ops []Op) {
 	for _, op := range ops {
+		if geti(op, "z") == 1 {
+			h.Emit(c11recZ(getis(op, "lhs"), getis(op, "rhs")))
+			continue
+		}
 		h.Emit(c11recA(getis(op, "buf"), getis(op, "lhs"), getis(op, "rhs"), getis(op, "alias")))
 	}
 }
@@ -153,6 +200,40 @@ func runC11(c *Ctx) {
 		rng := c.Rng("c11-alias", i)
 		buf, alias := aliasCases(rng)
 		c.NewHist("aliased-views").Emit(c11recA(buf, nil, nil, alias))
+	}
+	// +0 / -0: every pair over {+0, -0, 1} up to length 3 + random longer ones
+	zal := []int{0, negZero, 1}
+	var zs [][]int
+	var gen func(q []int, n int)
+	gen = func(q []int, n int) {
+		zs = append(zs, slices.Clone(q))
+		if n == 0 {
+			return
+		}
+		for _, x := range zal {
+			gen(append(q, x), n-1)
+		}
+	}
+	gen(nil, 3)
+	for _, a := range zs {
+		for _, b := range zs {
+			c.NewHist("signed-zero").Emit(c11recZ(a, b))
+		}
+	}
+	for i := 0; i < c.Pick(600, 20000); i++ {
+		rng := c.Rng("c11-z", i)
+		a, b := relatedPair(rng, 16, 3)
+		for _, q := range [][]int{a, b} {
+			for j := range q {
+				switch q[j] % 3 {
+				case 0:
+					q[j] = []int{0, negZero}[rng.Intn(2)]
+				default:
+					q[j] = q[j] % 3
+				}
+			}
+		}
+		c.NewHist("signed-zero").Emit(c11recZ(a, b))
 	}
 	n := c.Pick(3000, 120000)
 	for i := 0; i < n; i++ {
